@@ -289,6 +289,36 @@ void vf_harness(void) { Array* a; const Array* b; Array_append(a, b); VF_CANARY(
 )
 UNITS += [append_arr]
 
+# ---- dup(): "makes this array independent of others" (clone() = copy the handle, then dup()).  Typestate view: does *this still share its block, was a block of its own
+# made with every element copied into it, and was exactly one reference to the old block given up.
+dup_unit = Unit(
+    'Array_dup', 'C01',
+    cuts=[Cut('dup', A, r'^\tArray& dup\(\)\s*$',
+              rules=[(r'd\(\)\.rc', 'g_rc', None), (r'd\(\)\.n', 'g_n', None), (r'Array b\(g_n\);', 'NEW_ARRAY(g_n);', 1),
+                     (r'for\(int i=0; i<g_n; i\+\+\)\s*b\._a\[i\]=_a\[i\];', 'COPY_ELEMENTS(g_n);', 1), (r'\(\*this\)=b;', 'ASSIGN_NEW();', 1), (r'return \*this;', 'return;', None)])],
+    text=r'''
+#include "vf_base.h"
+int g_rc, g_n, g_new_len, g_copied, g_own, g_old_refs_dropped;
+static void NEW_ARRAY(int n) { __CPROVER_assert(n >= 0, "Array(n): n >= 0"); g_new_len = n; }                 /* Array b(n): a fresh block with n elements, one reference (b) */
+static void COPY_ELEMENTS(int n) { __CPROVER_assert(n <= g_new_len, "element copies stay inside the new block"); g_copied = n; }   /* b._a[i] = _a[i] for i < n */
+static void ASSIGN_NEW(void) { g_own = 1; g_old_refs_dropped++; }         /* (*this) = b: C01 Array_assign - *this gives up its reference to the old block and shares the one of b; b then goes away */
+void Array_dup(void)
+__CPROVER_requires(g_rc >= 1 && g_rc <= 1000000 && 0 <= g_n && g_n <= 1000000 && g_own == 0 && g_old_refs_dropped == 0 && g_copied == 0 && g_new_len == -1)
+/* afterwards *this shares its block with nobody: either it was the only handle already, or it now owns a fresh block holding a copy of every element -
+   also when there are no elements (an empty array that is shared must be detached as well: the handles are appended to independently afterwards) */
+__CPROVER_ensures(g_rc == 1 ? (g_own == 0 && g_old_refs_dropped == 0) : (g_own == 1 && g_old_refs_dropped == 1 && g_new_len == g_n && g_copied == g_n))
+__CPROVER_assigns(g_new_len, g_copied, g_own, g_old_refs_dropped)
+@@dup@@
+void vf_harness(void) { Array_dup(); VF_CANARY(); }
+''',
+    entry='Array_dup', kind='proof',
+    desc='Array::dup() (and so clone()) for every length and reference count: a shared block is always left - fresh block of the same length, every element copied, one reference to the old block dropped - '
+         'an unshared one is kept as it is',
+    functions=['Array::dup', 'Array::clone'],
+    trusted=['Array(n), element assignment loop and operator= abstracted to events (their contracts are the C01 units Array_resize / Array_assign)'],
+)
+UNITS += [dup_unit]
+
 # replay: where the trace recipe of a unit does not reproduce (or there is none) the driver's battery runs on the real library: Array<String> (heap payloads) and a counting
 # element type, every n <= 9: insert(k, x / a[src]), a << a[src], append(a), remove(i, c), resize, copy / assign / self-assign / clone, against std::vector
 _bat = replay.battery('C01/driver.cpp', ['battery'])
